@@ -306,8 +306,10 @@ def run_check(prop, tier, seed, jobs=None):
     elif inconclusive:
         exit_code = 2
 
-    for n, w in harness_errors[:10]:
-        lines.append("HARNESS-ERROR %s: %s" % (n, w.strip()[-1500:]))
+    for n, w in harness_errors[:4]:
+        lines.append("HARNESS-ERROR %s: %s" % (n, w.strip()[-900:]))
+    if len(harness_errors) > 4:
+        lines.append("  (+%d further harness errors)" % (len(harness_errors) - 4))
     for n, w in inconclusive[:10]:
         lines.append("INCONCLUSIVE %s: %s" % (n, w))
 
